@@ -95,7 +95,7 @@ func opPathMatchRow(fields []string) string {
 // c20Materialise creates the tree below root
 func c20Materialise(root string, toks []string) error {
 	stack := []string{root}
-	first, nfile := "", 0
+	first, nfile, ndir := "", 0, 0
 	for _, t := range toks {
 		if t == "" {
 			continue
@@ -130,8 +130,19 @@ func c20Materialise(root string, toks []string) error {
 				}
 			}
 		case 'D':
+			// a "directory" of the tree is a real directory, or (every fourth) a symbolic link to a directory that
+			// lives outside the tree (<root>.targets/<n>): one more name under which a directory is reached
 			p := filepath.Join(cur, unhx(t[1:]))
-			if err := os.Mkdir(p, 0o755); err != nil {
+			ndir++
+			if ndir%4 == 2 {
+				target := filepath.Join(root+".targets", strconv.Itoa(ndir))
+				if err := os.MkdirAll(target, 0o755); err != nil {
+					return err
+				}
+				if err := os.Symlink(target, p); err != nil {
+					return err
+				}
+			} else if err := os.Mkdir(p, 0o755); err != nil {
 				return err
 			}
 			stack = append(stack, p)
@@ -152,6 +163,7 @@ func opFileList(fields []string) (res string) {
 		return "ERR " + hx(err.Error())
 	}
 	defer os.RemoveAll(tmp)
+	defer os.RemoveAll(tmp + ".targets")
 	if err := c20Materialise(tmp, strings.Split(fields[0], " ")); err != nil {
 		return "ERR " + hx(err.Error())
 	}
